@@ -59,6 +59,8 @@ def int_envelope(s):
     r = _digitpart(t, i)
     if r is None or r[0] != len(t):
         return None
+    if len(r[1]) > 4000:
+        return "huge"          # beyond the interpreter's int<->str conversion limit: nothing is demanded
     return sign * int(r[1])
 
 
@@ -107,6 +109,8 @@ def float_envelope(s):
         exp = esign * int(ed)
     if i != len(t):
         return None
+    if len(intpart) + len(frac) > 4000:
+        return "huge"
     mant = int((intpart + frac) or "0")
     e10 = exp - len(frac)
     if mant == 0:
@@ -134,7 +138,7 @@ def v_int(s):
     if s is None:
         return UNSPEC
     if RE_INT.match(s):
-        return ACCEPT
+        return ACCEPT if len(s) <= 4000 else UNSPEC
     if int_envelope(s) is not None:
         return UNSPEC
     return REJECT
@@ -150,7 +154,7 @@ def v_float(s, lo=None, hi=None, nonneg=False):
         return REJECT
     canonical = bool(RE_FLOAT.match(s))
     if isinstance(v, str):
-        if not ranged:
+        if not ranged or v == "huge":
             return UNSPEC
         if v == "nan" or v == "-inf":
             return REJECT
